@@ -136,6 +136,7 @@ package crl
 // stmt C05 (and C12 shape): per-distribution-point evidence, all points consulted, first failure decides
 //@ func CertCheckStatus(ctx, cert, issuer, opts)
 //@   props C05 C06 C12
+//@   calls Fetcher.Fetch
 //@   requires issuer != nil
 //@   requires cert != nil ==> cert.SerialNumber != nil
 //@   ensures [fresh] result != nil && fresh(result) && result.RevocationMethod == result.RevocationMethodCRL
